@@ -1,7 +1,11 @@
 use fbrv::args::Args;
 use fbrv::engines::{ptfs_eng, transport_eng, vfs_eng, wire_eng};
 
+#[path = "../interpose.rs"]
+mod interpose;
+
 fn main() {
+    interpose::mark();
     let args = Args::parse();
     fbrv::env::quiet_panics();
     if args.prop == "P-debug" {
@@ -19,6 +23,8 @@ fn main() {
         "C12" => wire_eng::c12(&args),
         "C04" => transport_eng::run(&args, "C04"),
         "C05" => ptfs_eng::c05(&args),
+        "C08" => ptfs_eng::c08(&args),
+        "C15" => ptfs_eng::c15(&args),
         "C07" => vfs_eng::run(&args, "C07"),
         "C14" => vfs_eng::run(&args, "C14"),
         "C19" => vfs_eng::c19(&args),
